@@ -11,7 +11,7 @@ AGENT_RW = {'imports': {
 ENGINES = [
     {'name': 'mc', 'path': 'mc tools/mcrewrite harness/agentmc', 'serves_properties': ['C10', 'C11'],
      'kind_free_text': 'hand-written controlled scheduler + stateless/state-pruned DFS explorer for Go channel code, bound to the real source by an AST rewriter applied through go build -overlay'},
-    {'name': 'seqx', 'path': 'harness/c01 harness/c02 harness/c14 harness/x', 'serves_properties': ['C01', 'C02', 'C14'],
+    {'name': 'seqx', 'path': 'harness/c01 harness/c02 harness/c14 harness/c16 harness/c18 harness/x', 'serves_properties': ['C01', 'C02', 'C14', 'C16', 'C18'],
      'kind_free_text': 'explicit-state BFS over operation sequences on the real store.Dir with a reference model (hand-written, Go)'},
 ]
 
@@ -51,6 +51,14 @@ CHECKS = {
         'text': 'Every document of the enumeration is loaded with the real loader and compared with a three-valued reference predicate derived from the statement; every accepted document is used (add + authenticate under each set) in a subprocess so that crashes are observed.',
         'note': 'Reload (SIGHUP) schedules are explored by the mc part; numeric values beyond the sandbox resources are excluded (stated in the evidence).',
         'parts': [GoBin('loader', 'harness/c18')],
+    },
+    'C16': {
+        'level': 'model_checking',
+        'engine': 'seqx',
+        'technique': 'exhaustive enumeration of directory contents (all subsets up to size 3/4 of an entry menu, both creation orders) vs. a reference predicate; explicit-state BFS closure over operation histories; built binary on invalid directories',
+        'text': 'Check and Init are compared with reference predicates on every enumerated directory; every operation from every reachable model state keeps the store valid, one file per user and an empty work area (C01 search re-run with the validity observers); every CLI command refuses invalid directories with status 3.',
+        'note': 'Directory entries are built from two valid names and three content classes; invalid names belong to C03.',
+        'parts': [GoBin('dirs', 'harness/c16', agent=True), GoBin('histories', 'harness/c01', env={'VERIF_AS': 'C16'})],
     },
     'C11': {
         'level': 'model_checking',
